@@ -92,6 +92,35 @@ def gen_cases(tier, seed):
                "plan": sch, "fs": "ext4"}
 
 
+def _deref_total(top):
+    """Total length of the regular files reached when every link is followed; (total, loop) where loop tells that some link leads
+    back to one of its own ancestors (the walk is cut there: such a tree has no finite image, the copy is expected to fail)."""
+    import stat as _st
+    total, loop = 0, False
+    stack = [(top, (os.stat(top).st_dev, os.stat(top).st_ino), ())]
+    while stack:
+        d, ident, anc = stack.pop()
+        try:
+            names = os.listdir(d)
+        except OSError:
+            continue
+        for n in names:
+            p = os.path.join(d, n)
+            try:
+                st = os.stat(p)
+            except OSError:
+                continue
+            if _st.S_ISREG(st.st_mode):
+                total += st.st_size
+            elif _st.S_ISDIR(st.st_mode):
+                k = (st.st_dev, st.st_ino)
+                if k == ident or k in anc:
+                    loop = True
+                    continue
+                stack.append((p, k, anc + (ident,)))
+    return total, loop
+
+
 def run_stress(case, res):
     """Unsupervised: thousands of Copied updates from many workers at once (races inside the updater itself are not at
     system-call boundaries, so the supervisor cannot force them; volume and real parallelism have to)."""
@@ -203,16 +232,7 @@ def _run_case_body(case, sb, res):
         incomplete = bool(model.check_mirror(pre, post, mapping))
         if case.get("deref"):
             # every link stands for what it points to: sizes follow stat(), and the mirror oracle of C13 is not repeated here
-            total = 0
-            for dp, dn, fn in os.walk(os.path.join(b(root), b"src"), followlinks=True):
-                for n in fn:
-                    try:
-                        st = os.stat(os.path.join(dp, n))
-                    except OSError:
-                        continue
-                    import stat as _st
-                    if _st.S_ISREG(st.st_mode):
-                        total += st.st_size
+            total, link_loop = _deref_total(os.path.join(b(root), b"src"))
             incomplete = False
         got_error = any(j["t"] == "error" for j in stream)
         # (5) incomplete destination => Error update or Err (also when an in-kernel copy reported an early end of the source: D37)
@@ -225,7 +245,7 @@ def _run_case_body(case, sb, res):
         if case["updater"] != "noop":
             ssum = sum(j["v"] for j in stream if j["t"] == "size")
             # (1)
-            if result["ok"] and not got_error and ssum != total:
+            if result["ok"] and not got_error and ssum != total and not (case.get("deref") and link_loop):
                 res["viol"].append({"sig": sig0 + ":size-sum", "what": "sum of Size updates %d != total length of selected regular files %d; %s" % (ssum, total, tag)})
             # (2) prefix: copied <= announced
             s = c = 0
@@ -252,6 +272,18 @@ def _run_case_body(case, sb, res):
                         if reported > transferred:
                             res["viol"].append({"sig": sig0 + ":reported-exceeds-transferred", "what": "at marker seq %d: %d bytes reported as copied but only %d transferred by completed calls; %s"
                                                 % (ev["seq"], reported, transferred, tag)})
+                            break
+            # (4') nothing is sent once copy() has returned (the recording updater announces each send as it happens)
+            if case["updater"] == "record":
+                returned = None
+                for ev in run.events:
+                    if ev.get("ph") == "E" and ev["sys"] == "write" and ev.get("fd") == 999 and "data" in ev:
+                        if ev["data"].startswith("C returned"):
+                            returned = ev["seq"]
+                            res["counters"]["return-markers"] = 1
+                        elif returned is not None and ev["data"].startswith("U "):
+                            res["viol"].append({"sig": sig0 + ":update-after-return", "what": "update '%s' was sent (seq %d) after copy() had returned (seq %d): the stream had not ended when the call finished; result %s; %s"
+                                                % (ev["data"][2:], ev["seq"], returned, "Ok" if result["ok"] else "Err(" + result["err"][:60] + ")", tag)})
                             break
             res["counters"]["markers-checked"] = nmark
             res["counters"]["updates-seen"] = len(stream)
